@@ -169,9 +169,9 @@ def run_sc(programs, max_states=200000, timeout=600):
     return out
 
 
-def run_rc11(programs, mode, timeout=900):
+def run_rc11(programs, mode, max_states=30000, max_graphs=6000, timeout=900):
     """RC11 outcomes (Spec/RC11.lean; mode strong|doc): {prog: (set of outcome strings, status)}"""
-    recs = run_many([DRIVER_BIN, "rc11", mode], programs, timeout)
+    recs = run_many([DRIVER_BIN, "rc11", mode, str(max_states), str(max_graphs)], programs, timeout)
     out = {}
     for p, lines in recs.items():
         outs = set(l[4:] for l in lines if l.startswith("OUT "))
